@@ -155,6 +155,16 @@ func runC12(c *hx.Ctx) {
 	r := c.Rng
 	sc := newZipScratch(c.Out)
 	zipSizeLimitCases(c, sc)
+	{
+		m := module.Version{Path: "example.com/m", Version: "v1.2.3"}
+		for i, es := range zipCorpusArchives(m) {
+			data, err := gen.ZipWriteArchive(nil, es)
+			if err != nil {
+				panic(err)
+			}
+			c12Archive(c, sc, i%2, m, es, data)
+		}
+	}
 	for i := 0; i < c.N(3500); i++ {
 		m := gen.ZipModuleVersion(r)
 		if r.Intn(3) != 0 {
